@@ -371,11 +371,15 @@ func replayMain(args []string) int {
 	defer pool.Close()
 
 	perSig := map[string]int{}
+	fatal := 0 // budget / hang / crash verdicts: a few settle the matter, the rest of the scope would take hours
 	addViolation := func(v Violation) {
 		mu.Lock()
 		defer mu.Unlock()
 		rep.NViolations++
 		perSig[v.Sig]++
+		if v.Kind == "budget" || v.Kind == "hang" || v.Kind == "crash" {
+			fatal++
+		}
 		// keep a bounded number of examples per signature, so that a frequent
 		// (possibly known) class cannot hide a different one
 		if perSig[v.Sig] <= *maxViol {
@@ -415,6 +419,15 @@ func replayMain(args []string) int {
 		go func(ec ExpCase, c Node) {
 			defer wg.Done()
 			defer func() { <-sem }()
+			mu.Lock()
+			stop := fatal >= 6
+			if stop {
+				rep.OtherDiffs["cases_skipped_after_fatal_verdicts"] += len(ec.R)
+			}
+			mu.Unlock()
+			if stop {
+				return
+			}
 			src := renderProgram(c)
 			// texts the specification declines to run (process code whose
 			// termination it cannot establish) are not sent to the real code
@@ -474,6 +487,12 @@ func replayMain(args []string) int {
 			if resp.Crash != "" {
 				// isolate the text that kills the worker
 				for i := range ec.R {
+					mu.Lock()
+					stop := fatal >= 6
+					mu.Unlock()
+					if stop {
+						break
+					}
 					r1 := pool.Do(&Req{Op: "run", Src: src, Texts: [][]int{texts[i]}, Mode: *mode, Budget: *budgetMul*ec.R[i].Steps + 10000*boolInt(*budgetMul > 0)})
 					evalOne(rep, &mu, addViolation, fields, *prop, c, src, &ec.R[i], r1, 0, replace, *rejectIsViolation, seen, *budgetMul)
 				}
